@@ -855,7 +855,7 @@ func ruleC03RefPerOccurrence(c *Ctx) {
 				}
 				// the schema argument of the resolver is the schema whose info is written
 				sArgOK := false
-				_, steps := c.accessPath(fa.X)
+				_, steps := c.accessPath(structBase(fa.X))
 				for _, a := range call.Call.Args {
 					if len(steps) >= 2 && steps[len(steps)-1].Kind == "lookup" && steps[len(steps)-1].Key == a {
 						sArgOK = true
@@ -886,4 +886,19 @@ func sharesSourceDeep(a, b ssa.Value) bool {
 		}
 	}
 	return false
+}
+
+// structBase: the struct variable v is part of - looks out of nested (by-value) struct fields:
+// for &info.inner.x it is info.
+func structBase(v ssa.Value) ssa.Value {
+	for {
+		fa, ok := v.(*ssa.FieldAddr)
+		if !ok {
+			return v
+		}
+		if _, isStruct := core.StructField(fa.X.Type(), fa.Field).Type().Underlying().(*types.Struct); !isStruct {
+			return v
+		}
+		v = fa.X
+	}
 }
